@@ -389,4 +389,45 @@ def primitives(ctx):
     return p.out()
 
 
-CLIENT_KINDS = {'pipeline': pipeline, 'zclient': zclient, 'primitives': primitives}
+def streaming(ctx):
+    """A caller that reads one trace after another into ONE pre-allocated buffer (same object, same
+    address) and analyses each in turn — the usual shape of a batch job.  The buffer is the
+    caller's own array; refilling it is the caller's business, so these steps are never re-issued
+    as DUPs, and every library call on the buffer is also compared with a pristine process."""
+    rng = ctx.rng
+    p = Prog('streaming')
+    ci = rng.choice(ctx.curves())
+    n = ctx.n(ci)
+    same = [j for j in ctx.curves() if ctx.n(j) == n]
+    buf = p.call('caller.alloc', n)
+    p.steps[-1]['nodup'] = True
+    fns = rng.sample(['curvature.knee', 'dfdt.knee', 'menger.knee', 'lmethod.knee', 'kneedle.knee', 'curvature.multi_knee',
+                      'dfdt.multi_knee', 'menger.multi_knee', 'lmethod.multi_knee', 'kneedle.multi_knee', 'kneedle.knees',
+                      'zmethod.knees', 'zmethod.getPoints', 'rdp.grdp', 'rdp.rdp_fixed', 'rdp.min_point_rdp', 'rdp.mp_grdp',
+                      'lmethod.get_knee', 'dfdt.get_knee', 'linear_fit.linear_fit_points', 'linear_fit.r2_points',
+                      'convex_hull.graham_scan_lower', 'knee_ranking.rank', 'linear_fit.linear_fit', 'metrics.rmse'],
+                     rng.randint(1, 4))
+    for _ in range(rng.randint(2, 4)):
+        src = rng.choice(same)
+        f = p.call('caller.fill', R(buf), P(src), F(rng.choice([1.0, 1.0, 0.5, 2.0, 3.0])), rng.random() < 0.3)
+        p.steps[-1]['nodup'] = True
+        b = R(f)
+        for fn in fns:
+            if fn in ('lmethod.get_knee', 'dfdt.get_knee', 'linear_fit.linear_fit'):
+                p.call(fn, COL(b, 0), COL(b, 1))
+            elif fn == 'knee_ranking.rank':
+                p.call(fn, COL(b, 1))
+            elif fn == 'metrics.rmse':
+                p.call(fn, COL(b, 1), COL(b, 0))
+            elif fn == 'rdp.rdp_fixed':
+                p.call(fn, b, length=min(n, 6))
+            elif fn in ('rdp.min_point_rdp', 'rdp.mp_grdp'):
+                p.call(fn, b, min_points=min(n, 6))
+            else:
+                p.call(fn, b)
+            p.steps[-1]['nodup'] = True
+            p.steps[-1]['probe'] = True
+    return p.out()
+
+
+CLIENT_KINDS = {'pipeline': pipeline, 'zclient': zclient, 'primitives': primitives, 'streaming': streaming}
